@@ -18,8 +18,8 @@ Grow == /\ stage < NLay /\ stage' = stage + 1
         /\ \E k \in MainKinds, d \in SUBSET NameSet : main' = Append(main, k) /\ drop' = Append(drop, d)
         /\ UNCHANGED <<attrs, flags>>
 ChooseAttrs == /\ stage = NLay /\ stage' = NLay + 1
-               /\ \E a \in [Kset -> {x \in [own : {"ok", "foreign"}, grp : {"ok", "foreign"}, link : BOOLEAN, perm : {"ok", "bad"}] : x.link => x.perm = "ok"}] :
-                    attrs' = [f \in AllFiles(Tree) |-> IF f \in Kset THEN a[f] ELSE [own |-> "ok", grp |-> "ok", link |-> FALSE, perm |-> "ok"]]
+               /\ \E a \in [Kset -> {x \in [own : {"ok", "foreign"}, grp : {"ok", "foreign"}, link : BOOLEAN, perm : {"ok", "bad"}, dperm : {"ok"}] : x.link => x.perm = "ok"}] :
+                    attrs' = [f \in AllFiles(Tree) |-> IF f \in Kset THEN a[f] ELSE [own |-> "ok", grp |-> "ok", link |-> FALSE, perm |-> "ok", dperm |-> "ok"]]
                /\ UNCHANGED <<main, drop, flags>>
 \* (the settings space is finite - 54 combinations - and every one is reached by at most four setter calls; the reads are
 \* evaluated by the invariants in every state, so no read action is needed)
